@@ -311,3 +311,38 @@ func sameFn(a, b *ssa.Function) bool {
 	}
 	return oa == ob
 }
+
+// withHelpers returns fn, its literals and the non-anchor module functions it
+// (transitively) calls that could not be inlined (they use defer, say): the
+// code a refactoring moved out of fn is still judged as part of fn.
+func withHelpers(p *core.Prog, fn *ssa.Function) []*ssa.Function {
+	seen := map[*ssa.Function]bool{}
+	var out []*ssa.Function
+	var visit func(f *ssa.Function)
+	visit = func(f *ssa.Function) {
+		if f == nil || seen[f] || f.Blocks == nil {
+			return
+		}
+		seen[f] = true
+		out = append(out, f)
+		for _, l := range core.Closures(f) {
+			if l != f {
+				visit(l)
+			}
+		}
+		for _, b := range f.Blocks {
+			for _, in := range b.Instrs {
+				if c, ok := in.(ssa.CallInstruction); ok {
+					if g := c.Common().StaticCallee(); g != nil && inModule(p, g) && !p.IsAnchor(g) {
+						if o := g.Origin(); o != nil && o.Blocks != nil {
+							g = o
+						}
+						visit(g)
+					}
+				}
+			}
+		}
+	}
+	visit(fn)
+	return out
+}
